@@ -15,6 +15,7 @@
 #include "common.h"
 #include <thread>
 #include <sched.h>
+#include <unistd.h>
 using namespace vh;
 
 // ---------------------------------------------------------------------------------------
@@ -361,13 +362,18 @@ static std::string soak_line(const std::vector<std::string> &w) {
     unsigned count = strtoul(w[3].c_str(), 0, 10), seed = strtoul(w[4].c_str(), 0, 10);
     if (maxMsg < 12 || !nmsgs || maxMsg > 256) return "bad-op";
     Link L(maxMsg, nmsgs);
-    std::string err;
+    std::string err;                       // written by the reader thread only, read after join
+    std::atomic<bool> stop(false), wdone(false);
     std::thread wt([&] {
-        for (unsigned i = 0; i < count; ++i) {
+        for (unsigned i = 0; i < count && !stop.load(); ++i) {
             bytes m = soak_msg(i, seed, maxMsg);
             char kind = "wax"[(i + seed) % 3];
-            while (!L.put(kind, m)) sched_yield();
+            while (!L.put(kind, m)) {
+                if (stop.load()) return;
+                sched_yield();
+            }
         }
+        wdone.store(true);
     });
     std::thread rt([&] {
         unsigned next = 0;
@@ -376,23 +382,29 @@ static std::string soak_line(const std::vector<std::string> &w) {
             if ((++polls & 15) == 0) {
                 // peek along the lookahead queue: must replay next, next+1, … without consuming
                 unsigned k = next;
-                while (L.tl->hasNextLookahead() && err.empty()) {
+                while (k < count && L.tl->hasNextLookahead() && err.empty()) {
                     std::string got = L.get(true);
                     if (got != hex(soak_msg(k, seed, maxMsg))) err = "lookahead " + std::to_string(k) + " got " + got;
                     ++k;
                 }
-                if (k > next) {              // resynchronise by a normal read
+                if (k > next && err.empty()) {   // resynchronise by a normal read
                     std::string got = L.get(false);
                     if (got != hex(soak_msg(next, seed, maxMsg))) err = "read-after-lookahead " + std::to_string(next) + " got " + got;
                     ++next;
                 }
                 continue;
             }
-            if (!L.tl->hasNext()) { sched_yield(); continue; }
+            if (!L.tl->hasNext()) {
+                // the writer has finished and nothing is queued although messages are missing: lost
+                if (wdone.load() && !L.tl->hasNext()) { err = "message " + std::to_string(next) + " lost"; break; }
+                sched_yield();
+                continue;
+            }
             std::string got = L.get(false);
             if (got != hex(soak_msg(next, seed, maxMsg))) err = "read " + std::to_string(next) + " got " + got;
             ++next;
         }
+        stop.store(true);
     });
     wt.join();
     rt.join();
@@ -400,13 +412,19 @@ static std::string soak_line(const std::vector<std::string> &w) {
     return err.empty() ? "soak ok" : "soak FAIL " + err;
 }
 
+// A line that does not finish (a framing loop that never ends on torn data, a reader that
+// waits for a message that was lost) must not hang the check: SIGALRM ends the process and
+// the runner records `crash:signal:14` for the line.
 static std::string step(const std::string &line) {
     auto w = words(line);
     if (w.empty()) return "bad-op";
-    if (w[0] == "seq") return seq_line(w);
-    if (w[0] == "conc") return conc_line(w);
-    if (w[0] == "soak") return soak_line(w);
-    return "bad-op";
+    std::string out = "bad-op";
+    alarm(w[0] == "soak" ? 600 : 10);
+    if (w[0] == "seq") out = seq_line(w);
+    else if (w[0] == "conc") out = conc_line(w);
+    else if (w[0] == "soak") out = soak_line(w);
+    alarm(0);
+    return out;
 }
 int main(int argc, char **argv) {
     int rc = run_lines(argc, argv, step);
